@@ -1305,8 +1305,11 @@ class BaseMatcher:
                 if not m.stop and (node_max is None or m.logprob > node_max.logprob):
                     node_max = m
         else:
+            # Prefer the deepest non-emitting state and, at equal depth, the most probable one. This is a
+            # total order (up to exact ties), the result should not depend on the iteration order of the set.
             for m in self.lattice[start_idx].values_all():  # type:BaseMatching
-                if not m.stop and (node_max is None or m.obs_ne > node_max_ne or m.logprob > node_max.logprob):
+                if not m.stop and (node_max is None or m.obs_ne > node_max_ne or
+                                   (m.obs_ne == node_max_ne and m.logprob > node_max.logprob)):
                     node_max_ne = m.obs_ne
                     node_max = m
         if node_max is None:
